@@ -451,12 +451,19 @@ func c12CopyVal(v C12Val) C12Val {
 	return out
 }
 
+func c12CopyUnks(us []C12Unk) []C12Unk {
+	var out []C12Unk
+	for _, u := range us {
+		u.X = append([]byte(nil), u.X...)
+		u.G = c12CopyUnks(u.G)
+		out = append(out, u)
+	}
+	return out
+}
+
 func c12CopyMsg(m *C12Msg) *C12Msg {
 	out := &C12Msg{}
-	for _, u := range m.U {
-		u.X = append([]byte(nil), u.X...)
-		out.U = append(out.U, u)
-	}
+	out.U = c12CopyUnks(m.U)
 	for _, f := range m.F {
 		g := C12Fld{Num: f.Num, Name: f.Name, Empty: f.Empty}
 		if f.V != nil {
